@@ -38,27 +38,32 @@ variable {f : TType → Text → Text}
 
 /-- **C13 (a)** -/
 theorem clause_identList_in_context (sk : ClauseSkel) (hsk : sk ∈ clauseSkels) (hp : sk.pinned = false)
-    (hk : sk.kind = .identList) (ha : AdmissibleNames kwNorm f) (fuel : Nat) (hfuel : clauseFuel ≤ fuel) :=
+    (hk : sk.kind = .identList) (ha : AdmissibleNames kwNorm f) (fuel : Nat) (hfuel : clauseFuel ≤ fuel) :
+    IdentListInContext f sk fuel :=
   identList_in_context sk hk (canonical_of_table hsk hp) ha fuel hfuel
 
 /-- **C13 (b)** -/
 theorem clause_parameters_in_context (sk : ClauseSkel) (hsk : sk ∈ clauseSkels) (hp : sk.pinned = false)
-    (hk : sk.kind = .params) (ha : AdmissibleNames kwNorm f) (fuel : Nat) (hfuel : clauseFuel ≤ fuel) :=
+    (hk : sk.kind = .params) (ha : AdmissibleNames kwNorm f) (fuel : Nat) (hfuel : clauseFuel ≤ fuel) :
+    ParametersInContext f sk fuel :=
   parameters_in_context sk hk (canonical_of_table hsk hp) ha fuel hfuel
 
 /-- **C13 (c)** -/
 theorem clause_cases_in_context (sk : ClauseSkel) (hsk : sk ∈ clauseSkels) (hp : sk.pinned = false)
-    (hk : sk.kind = .cases) (ha : AdmissibleNames kwNorm f) (fuel : Nat) (hfuel : clauseFuel ≤ fuel) :=
+    (hk : sk.kind = .cases) (ha : AdmissibleNames kwNorm f) (fuel : Nat) (hfuel : clauseFuel ≤ fuel) :
+    CasesInContext f sk fuel :=
   cases_in_context sk hk (canonical_of_table hsk hp) ha fuel hfuel
 
 /-- **C13 (d)** -/
 theorem clause_comparison_in_context (sk : ClauseSkel) (hsk : sk ∈ clauseSkels) (hp : sk.pinned = false)
-    (hk : sk.kind = .comparison) (ha : AdmissibleNames kwNorm f) (fuel : Nat) (hfuel : clauseFuel ≤ fuel) :=
+    (hk : sk.kind = .comparison) (ha : AdmissibleNames kwNorm f) (fuel : Nat) (hfuel : clauseFuel ≤ fuel) :
+    ComparisonInContext f sk fuel :=
   comparison_in_context sk hk (canonical_of_table hsk hp) ha fuel hfuel
 
 /-- **C13 (e)** -/
 theorem clause_typedLiteral_in_context (sk : ClauseSkel) (hsk : sk ∈ clauseSkels) (hp : sk.pinned = false)
-    (hk : sk.kind = .typedLiteral) (ha : AdmissibleNames kwNorm f) (fuel : Nat) (hfuel : clauseFuel ≤ fuel) :=
+    (hk : sk.kind = .typedLiteral) (ha : AdmissibleNames kwNorm f) (fuel : Nat) (hfuel : clauseFuel ≤ fuel) :
+    TypedLiteralInContext f sk fuel :=
   typedLiteral_in_context sk hk (canonical_of_table hsk hp) ha fuel hfuel
 
 end Acc
